@@ -31,7 +31,10 @@ func init() {
 			out = append(out, Shard{Kind: "residues", Arg: fmt.Sprint(now), Tier: tier, Seed: seed})
 			var early [][2]int
 			for y := 2; y <= 1899; y++ {
-				if tier == "thorough" || y%30 == int(seed%30) {
+				// quick: every 30th year, plus the years whose lunar New Year lies outside the civil year (lunar year 16
+				// begins on 0015-12-30; the lookup once read year 16's terms from that day's table and missed the whole year)
+				// and their successors
+				if tier == "thorough" || y%30 == int(seed%30) || newYearOutsideCivilYear(y) || newYearOutsideCivilYear(y-1) {
 					early = append(early, [2]int{y, y})
 				}
 			}
@@ -41,6 +44,15 @@ func init() {
 		Run:           runC10,
 		MinNontrivial: 50,
 	})
+}
+
+func newYearOutsideCivilYear(y int) bool {
+	if y < 1 {
+		return false
+	}
+	out := false
+	try(func() { out = calendar.NewLunarFromYmd(y, 1, 1).GetSolar().GetYear() != y })
+	return out
 }
 
 type c10Moment struct {
